@@ -81,7 +81,15 @@ func TestC09_ByteBufferModel(t *testing.T) {
 	rec := evid.For("C09")
 	rec.SetRule("rapid state machine over the ByteBuffer public API (Write/WriteByte/WriteString, Claim, ClaimFixed, Commit, Consume, Save, Discard, DiscardAll, Reserve, ShrinkBy, ShrinkTo, PrepareRead, Read, ReadByte, UnreadByte, ReadFrom, WriteTo, Reset) with integer arguments from {MinInt,-1,0,1,exact,exact+1,MaxInt-k,MaxInt} and random; compared after every call with a three-slice model and the list of live slots; non-trivial = (growth across reallocation AND Discard of a non-last slot AND a Consume) OR an extreme integer argument; distinct = hash of the call trace")
 	rec.Assume("Discard/SavedSlot only with live slots (shifted by the caller for earlier discards); Reserve <= 1 MiB; io.Reader doubles return (n>0,nil) or (0,err); io.Writer doubles return (n>0,nil) or (0,err)")
-	vt.CheckSteps(t, 3000, 60, func(t *rapid.T) {
+	vt.CheckSteps(t, 3000, 60, propC09)
+}
+
+// FuzzC09ByteBuffer drives the same state machine from coverage-guided bytes (thorough tier).
+func FuzzC09ByteBuffer(f *testing.F) { f.Fuzz(rapid.MakeFuzz(propC09)) }
+
+func propC09(t *rapid.T) {
+	rec := evid.For("C09")
+	{
 		b := sonic.NewByteBuffer()
 		m := &bbModel{}
 		var trace []string
@@ -466,7 +474,7 @@ func TestC09_ByteBufferModel(t *testing.T) {
 			cls = append(cls, "grow+discard-middle+consume")
 		}
 		rec.Case(strings.Join(trace, ","), nt, cls, map[string]any{"ops": trace})
-	})
+	}
 }
 
 var _ = io.EOF
